@@ -149,6 +149,8 @@ def contracts(chk, repo, clause_b, clause_d, clause_e, clause_i, clause_conserve
 
 
 def field_accumulation(chk, repo, clause):
+    from .c06 import insert_accumulates
+    insert_accumulates(chk, repo, clause)
     for key, intensity, dtype in (('wavefront.Wavefront.field', FALSE, 'complex'),
                                   ('wavefront.Wavefront.intensity', TRUE, 'float')):
         f, paths, _ = analyse(repo, key)
